@@ -140,6 +140,9 @@ def match_getter(r, body, ret, params, broken):
     m = re.fullmatch(G + r"(?:\.as_deref\(\))?\.map\(\|(" + ID + r")\|\2\.parse\(\)\.unwrap\(\)\)", body)
     if m and strip_option(ret) and vty_of(strip_option(ret), broken):
         r.fields = [unescape(m.group(1))]; r.op = "OGet"; r.codec = "(CParse %s true)" % vty_of(strip_option(ret), broken); return True
+    m = re.fullmatch(G + r"\.map\(\|(" + ID + r")\|Relations::parse_relaxed\(&\2,true\)\.0\)", body)
+    if m and ret == "Option<Relations>":
+        r.fields = [unescape(m.group(1))]; r.op = "OGet"; r.codec = "CRelaxed"; return True
     m = re.fullmatch(G + r"(?:\.as_deref\(\))?\.and_then\(\|(" + ID + r")\|\2\.parse\(\)\.ok\(\)\)", body)
     if m and strip_option(ret) and vty_of(strip_option(ret), broken):
         r.fields = [unescape(m.group(1))]; r.op = "OGet"; r.codec = "(CParse %s false)" % vty_of(strip_option(ret), broken); return True
@@ -182,6 +185,9 @@ def match_getter(r, body, ret, params, broken):
     m = re.fullmatch(G + r'\.map\(\|s\|match s\.to_lowercase\(\)\.as_str\(\)\{"yes"=>true,"no"=>false,_=>panic!\("[^"]*"\),\}\)', body)
     if m and ret == "Option<bool>":
         r.fields = [unescape(m.group(1))]; r.op = "OGet"; r.codec = "CYesNoLower"; return True
+    m = re.fullmatch(G + r'\.and_then\(\|s\|match s\.to_lowercase\(\)\.as_str\(\)\{"yes"\|"binary-targets"=>Some\(true\),"no"=>Some\(false\),_=>None,\}\)', body)
+    if m and ret == "Option<bool>":
+        r.fields = [unescape(m.group(1))]; r.op = "OGet"; r.codec = "CRootFlag"; return True
     m = re.fullmatch(G + r"\.map\(\|s\|\{s\.lines\(\)\.map\(\|line\|\{let\(key,value\)=line\.split_once\('='\)\.unwrap\(\);\(key\.to_string\(\),value\.to_string\(\)\)\}\)\.collect\(\)\}\)", body)
     if m and ret == "Option<std::collections::HashMap<String,String>>":
         r.fields = [unescape(m.group(1))]; r.op = "OGet"; r.codec = "CEnv"; return True
@@ -274,6 +280,9 @@ def match_setter(r, body, params, broken):
         r.fields = [unescape(m.group(1))]; r.op = "OSet"; r.codec = "CEnvSet"; return True
     m = re.fullmatch(r'let text=match license\{License::Name\(name\)=>name\.to_string\(\),License::Named\(name,text\)=>format!\("\{\}\\n\{\}",name,text\),License::Text\(text\)=>text\.to_string\(\),\};self\.0\.set\(' + LIT + r",&text\);", body)
     if m and pd == {"license": "&License"}:
+        r.fields = [unescape(m.group(1))]; r.op = "OSet"; r.codec = "CLicenseSetShipped"; return True
+    m = re.fullmatch(r"let text=license\.to_string\(\);self\.0\.set\(" + LIT + r",&text\);", body)
+    if m and pd == {"license": "&License"} and "License" not in broken:
         r.fields = [unescape(m.group(1))]; r.op = "OSet"; r.codec = "CLicenseSet"; return True
     return False
 
@@ -389,6 +398,15 @@ def scan_fields(repo):
     AU_DISP = 'fn fmt(&self,f:&mut std::fmt::Formatter<\'_>)->std::fmt::Result{match self{AppliedUpstream::Commit(s)=>write!(f,"commit:{}",s),AppliedUpstream::Other(s)=>f.write_str(&s.to_string()),}}'
     if d3.get(("FromStr", "AppliedUpstream")) != AU_FROM or d3.get(("Display", "AppliedUpstream")) != AU_DISP:
         broken.add("AppliedUpstream"); notes.append("dep3 AppliedUpstream: Display/FromStr changed")
+    OC_DISP = 'fn fmt(&self,f:&mut std::fmt::Formatter<\'_>)->std::fmt::Result{match self{OriginCategory::Backport=>f.write_str("backport"),OriginCategory::Vendor=>f.write_str("vendor"),OriginCategory::Upstream=>f.write_str("upstream"),OriginCategory::Other=>f.write_str("other"),}}'
+    O_DISP = 'fn fmt(&self,f:&mut std::fmt::Formatter<\'_>)->std::fmt::Result{match self{Origin::Commit(s)=>write!(f,"commit:{}",s),Origin::Other(s)=>f.write_str(&s.to_string()),}}'
+    if d3.get(("Display", "OriginCategory")) != OC_DISP or d3.get(("Display", "Origin")) != O_DISP:
+        broken.add("format_origin"); notes.append("dep3 Display for OriginCategory / Origin changed (format_origin prints through them)")
+    # debian-copyright License: Display is what set_license writes
+    lic, _ = impls("debian-copyright/src/lib.rs")
+    L_DISP = 'fn fmt(&self,f:&mut std::fmt::Formatter<\'_>)->std::fmt::Result{match self{License::Name(name)=>f.write_str(name),License::Text(text)=>write!(f,"\\n{}",text),License::Named(name,text)=>write!(f,"{}\\n{}",name,text),}}'
+    if lic.get(("Display", "License")) != L_DISP:
+        broken.add("License"); notes.append("debian-copyright Display for License changed")
     src = rs.join_tokens(d3toks)
     PO = 'pub(crate)fn parse_origin(s:&str)->(Option<OriginCategory>,Origin){let mut parts=s.splitn(2,", ");let(category,s)=match parts.next(){Some("backport")=>(Some(OriginCategory::Backport),parts.next().unwrap_or("")),Some("vendor")=>(Some(OriginCategory::Vendor),parts.next().unwrap_or("")),Some("upstream")=>(Some(OriginCategory::Upstream),parts.next().unwrap_or("")),Some("other")=>(Some(OriginCategory::Other),parts.next().unwrap_or("")),None|Some(_)=>(None,s),};if let Some(rest)=s.strip_prefix("commit:"){(category,Origin::Commit(rest.to_string()))}else{(category,Origin::Other(s.to_string()))}}'
     FO = 'pub(crate)fn format_origin(category:&Option<OriginCategory>,origin:&Origin)->String{format!("{}{}",category.map(|c|c.to_string()+", ").unwrap_or_default(),origin)}'
@@ -411,9 +429,9 @@ def arg_conv(t, i, src):
         "Option<Priority>": (f"let {a}: Option<debian_control::fields::Priority> = v_opt({src}).map(|x| v_str(x).parse().unwrap());", a),
         "MultiArch": (f"let {a}: debian_control::fields::MultiArch = v_str({src}).parse().unwrap();", a),
         "Option<MultiArch>": (f"let {a}: Option<debian_control::fields::MultiArch> = v_opt({src}).map(|x| v_str(x).parse().unwrap());", a),
-        "&Relations": (f"let {a}: Relations = v_str({src}).parse().unwrap();", f"&{a}"),
-        "Relations": (f"let {a}: Relations = v_str({src}).parse().unwrap();", a),
-        "Option<&Relations>": (f"let {a}: Option<Relations> = v_opt({src}).map(|x| v_str(x).parse().unwrap());", f"{a}.as_ref()"),
+        "&Relations": (f"let {a}: Relations = Relations::parse_relaxed(&v_str({src}), true).0;", f"&{a}"),
+        "Relations": (f"let {a}: Relations = Relations::parse_relaxed(&v_str({src}), true).0;", a),
+        "Option<&Relations>": (f"let {a}: Option<Relations> = v_opt({src}).map(|x| Relations::parse_relaxed(&v_str(x), true).0);", f"{a}.as_ref()"),
         "debversion::Version": (f"let {a}: debversion::Version = v_str({src}).parse().unwrap();", a),
         "&url::Url": (f"let {a} = url::Url::parse(&v_str({src})).unwrap();", f"&{a}"),
         "chrono::DateTime<chrono::FixedOffset>": (f"let {a} = chrono::DateTime::parse_from_rfc2822(&v_str({src})).unwrap();", a),
@@ -503,7 +521,8 @@ def classify(tag, fn, privs, broken, ctor):
         r.role = "RSetter"
         if not match_setter(r, body_n, fn.params, broken): r.unrec()
     else:
-        r.role = "ROther"; r.note = "consumes self"
+        # `self` by value (or any other receiver): not silently skipped
+        r.role = "RGetter"; r.unrec("receiver %s is outside the catalogue" % ",".join(recv)); r.bad_recv = True
     return r
 
 def selftest():
@@ -545,7 +564,7 @@ def main():
                 if not fn.vis.startswith("pub") or fn.vis != "pub":
                     continue
                 r = classify(tag, fn, privs, broken, ctor)
-                r.arm = harness_arm(r) if r.role != "ROther" else None
+                r.arm = harness_arm(r) if r.role != "ROther" and not getattr(r, "bad_recv", False) else None
                 if r.role != "ROther" and r.arm is None and "Unrecognised" not in r.codec:
                     r.unrec("signature outside the harness catalogue (%s)->%s" % (",".join(t for _, t in fn.params), fn.ret))
                 rows.append(r)
@@ -638,7 +657,7 @@ def main():
     ro.append("/// missing on either side is a correspondence difference")
     ro.append("pub const METHODS: &[(&str, &str, &str)] = &[")
     for r in rows:
-        if r.role != "ROther": ro.append(f'    ("{r.ty}", "{r.method}", "{r.role}"),')
+        ro.append(f'    ("{r.ty}", "{r.method}", "{r.role}"),')
     ro.append("];")
     ro.append("")
     ro.append("pub fn streams() -> Vec<(&'static str, crate::StreamFn)> { vec![] }")
